@@ -137,6 +137,11 @@ class PFlow(BaseRoutine):
         else:
             self.inc = self.solver.linsolve(self.A, self.res)
 
+        # a NaN increment (singular Jacobian) must not be applied, even if the mismatch
+        # evaluated before the step is already below the tolerance
+        if np.isnan(self.inc).any():
+            return np.nan
+
         system.dae.x += np.ravel(self.inc[:system.dae.n])
         system.dae.y += np.ravel(self.inc[system.dae.n:])
 
